@@ -45,8 +45,9 @@ RULE = (
 ASSUMPTIONS = [
     "verdict on pattern A only (clone, then exactly one advertised method on the fresh clone); pattern B "
     "observations are informational",
-    "'stopped by a bound' = the step would leave [declared min, declared max]; a step that lands exactly on the "
-    "declared limit is inside the range (BOUNDARY_STRICT) and gets its own witness kind",
+    "'stopped by a bound' = the step would pass the declared limit it moves towards (maximum for add, minimum for "
+    "remove); a step that lands exactly on that limit is inside the declared range, so refusing it is a witness "
+    "of its own kind (refused_although_result_equals_declared_bound; BOUNDARY_STRICT=False makes it informational)",
     "EvolvableCNN.add_layer is stopped when the layer maximum is reached, the last feature map is <= 2 or the "
     "declared kernel limit (a quarter of the feature map, 1..9) admits no kernel >= 2 (library's declared rule)",
     "change_kernel that re-draws the current size counts as applied; EvolvableCNN.remove_channel that reports 0 "
@@ -86,7 +87,7 @@ def cases(tier, seed):
         out.append({"mode": "bfs", "subject": sub, "max_states": 3000 if tier == "quick" else 6000})
     steps_mod = 50 if tier == "quick" else 300
     steps_net = 50 if tier == "quick" else 200
-    reps = 1 if tier == "quick" else 12
+    reps = 1 if tier == "quick" else 6
     for r in range(reps):
         for sub in MODULE_SUBJECTS:
             heavy = sub["kind"] in ("CNN2d", "CNN3d", "ResNet", "MultiInput")
